@@ -445,6 +445,14 @@ def ShapeK.isConst : ShapeK → Bool
   | .const _ => true
   | _ => false
 
+/-- branch "c_value of the longer operand, all entries > 1": tuple of clipped_size_t<I> (broadcast_shape.hpp:373-396) -/
+def bcastStaticTuple (va : List Nat) (arr : ShapeK) : ShapeK :=
+  if va.all (· > 1) then .clipped va else arr
+
+/-- branch "fixed length c_value against a bounded partner": array of clipped<max> unless the minimum is 1 (:400-485) -/
+def bcastStaticArray (va : List Nat) (sv : ShapeK) : ShapeK :=
+  if va.foldl min (va.headD 0) == 1 then sv else .clipped (List.replicate va.length (va.foldl max 0))
+
 /-- `resolve_optype<broadcast_shape_t>` (broadcast_shape.hpp:307-510) -/
 def broadcastShapeK (a b : ShapeK) : Option ShapeK :=
   match a.cvalue, b.cvalue with
@@ -452,24 +460,21 @@ def broadcastShapeK (a b : ShapeK) : Option ShapeK :=
     (match refBroadcast va vb with
      | some r => some (if a.isConst && b.isConst then .const r else .clipped r)
      | none => if a.isConst && b.isConst then none else some (.fixedDim (max va.length vb.length)))
-  | _, _ =>
+  | some va, none =>
+    (match b.lenK with
+     | .fixed lb => some (if va.length ≥ lb then bcastStaticTuple va (.fixedDim (max va.length lb)) else .fixedDim (max va.length lb))
+     | .bounded bb => some (if va.length ≥ bb then bcastStaticArray va (.boundedDim (max va.length bb)) else .boundedDim (max va.length bb))
+     | .dyn => some .dyn)
+  | none, some vb =>
+    (match a.lenK with
+     | .fixed la => some (if vb.length ≥ la then bcastStaticTuple vb (.fixedDim (max la vb.length)) else .fixedDim (max la vb.length))
+     | .bounded ba => some (if vb.length ≥ ba then bcastStaticArray vb (.boundedDim (max vb.length ba)) else .boundedDim (max vb.length ba))
+     | .dyn => some .dyn)
+  | none, none =>
     match a.lenK, b.lenK with
-    | .fixed la, .fixed lb =>
-      let arr := ShapeK.fixedDim (max la lb)
-      (match a.cvalue, b.cvalue with
-       | some va, _ => if la ≥ lb then (if va.all (· > 1) then some (.clipped va) else some arr) else some arr
-       | none, some vb => if lb ≥ la then (if vb.all (· > 1) then some (.clipped vb) else some arr) else some arr
-       | none, none => some arr)
-    | .fixed la, .bounded bb =>
-      let sv := ShapeK.boundedDim (max la bb)
-      (match a.cvalue with
-       | some va => if la ≥ bb then (if va.foldl min (va.headD 0) == 1 then some sv else some (.clipped (List.replicate la (va.foldl max 0)))) else some sv
-       | none => some sv)
-    | .bounded ba, .fixed lb =>
-      let sv := ShapeK.boundedDim (max lb ba)
-      (match b.cvalue with
-       | some vb => if lb ≥ ba then (if vb.foldl min (vb.headD 0) == 1 then some sv else some (.clipped (List.replicate lb (vb.foldl max 0)))) else some sv
-       | none => some sv)
+    | .fixed la, .fixed lb => some (.fixedDim (max la lb))
+    | .fixed la, .bounded bb => some (.boundedDim (max la bb))
+    | .bounded ba, .fixed lb => some (.boundedDim (max lb ba))
     | .bounded ba, .bounded bb => some (.boundedDim (max ba bb))
     | _, _ => some .dyn
 
